@@ -61,7 +61,16 @@ claim("C12",
       "trusted: TLC; distance clause is statistical (calibrated: 60 seeds, worst drop 10.5%); chain is not reversible move-by-move (TLC counterexample), so exact detailed balance is not claimed",
       T_TLC, "DESIGN.md 4 C12")
 
+claim("C13",
+      "The extractor is a TLA+ state machine with its per-topology edge counter (the accumulating counter is a deviation that must fail); TLC checks exactness (edge-END counts over 2E_t), symmetry, sum to one and repeatability over call histories on the committed network family, and judges every matrix returned by 1-4 successive get_ejks() calls on one real extractor (and the overall-degree variant) for ~100-400 annotated networks incl. self-paired classes, two differently named 2-clique topologies and annotations that differ from actual degrees",
+      "trusted: TLC, float decoding over the dictated denominator 2E_t",
+      T_TLC, "DESIGN.md 4 C13")
+claim("C14",
+      "The inversion routine is a TLA+ state machine over exact fractions (invert each topology, rescale on a common key, merge, renormalise): TLC proves on a family of ~1300 distributions x name lists that it returns P restricted to non-zero joint degrees and is always defined (the hard-coded reference topology is a deviation that must fail); TLC then judges the real static functions (excess, mean, inversion with arbitrary topology names, row sums of arbitrary integer matrices, and row sums of network-derived matrices = excess of the network's empirical jdd) on thousands of enumerated/random inputs",
+      "trusted: TLC, float decoding; inversion premise: some joint degree positive in every topology",
+      T_TLC, "DESIGN.md 4 C14")
+
 _pending = "no check built yet in this round; planned (DESIGN.md 4)"
-for p in ["C13","C14","C15","C16","C17","C18"]:
+for p in ["C15","C16","C17","C18"]:
     NOT_APPLICABLE[p] = _pending
 NOT_APPLICABLE["C19"] = "numerical accuracy of four stateless real-valued functions (exp, zeta, polylog): no state, no transitions, TLC has neither reals nor transcendental functions (DESIGN.md 5)"
